@@ -144,9 +144,9 @@ REACH = {"collinear": ["overlapping_neighbours", "level_ge_5"]}
 HARNESSES = [
     H("levels_1_2", h_levels_1_2, quick=[dict(n=k) for k in (1, 2, 3)], thorough=[dict(n=4)], functions=FUNCTIONS, bounds="every numbering of every tree with n<=3/4 nodes; symbolic coordinates and radii (>0); accuracy a symbolic integer in {1,2}"),
     H("collinear", h_collinear, quick=[dict(shape="two", axis=0, sign=1), dict(shape="two", axis=2, sign=-1), dict(shape="middle", axis=1, sign=1, equal_r=True), dict(shape="two", axis=1, sign=1, origin0=True)],
-      thorough=[dict(shape="two", axis=a, sign=s) for a in range(3) for s in (1, -1)] + [dict(shape="chain3", axis=0, sign=1), dict(shape="middle", axis=1, sign=1)],
+      thorough=[dict(shape="two", axis=a, sign=s) for a, s in ((0, 1), (0, -1), (1, 1), (1, -1), (2, 1), (2, -1))] + [dict(shape="middle", axis=1, sign=1, equal_r=True), dict(shape="two", axis=1, sign=1, origin0=True)],
       functions=FUNCTIONS, opts=dict(oblig_timeout_ms=dict(quick=120000, thorough=600000)), expect_outside=True,
-      bounds="2-node tree on +x / -z and 3-node root-in-the-middle on y with one common symbolic radius (quick); 2-node tree on all six directions, 3-node chain, 3-node root-in-the-middle (thorough); radii and lengths any reals with L >= both radii; accuracy a symbolic integer in [3,9]"),
+      bounds="2-node tree on +x / -z and 3-node root-in-the-middle on y with one common symbolic radius (quick); 2-node tree on all six directions, 3-node root-in-the-middle with one common radius (thorough; the 3-node chain and the root-in-the-middle with unequal radii exceed the time budget and are outside the claim); radii and lengths any reals with L >= both radii; accuracy a symbolic integer in [3,9]"),
     H("unit_vector", h_unit_vector, quick=[dict()], thorough=[dict()], functions=FUNCTIONS + ["swcgeom.utils.solid_geometry.find_unit_vector_on_plane"], expect_outside=True,
       opts=dict(oblig_timeout_ms=dict(quick=60000, thorough=300000)),
       bounds="contract of the randomness stub: the real find_unit_vector_on_plane returns a unit vector perpendicular to ANY unit normal (oblique directions included) for every accepted random draw"),
